@@ -45,7 +45,8 @@ _HOSTILE_NAMES = ["doit", "ifx", "endx", "elsewhere1", "format1", "integerx", "r
                   "printer", "gotcha", "whereabouts", "typed", "use_it", "dataset", "stopper",
                   "enddo_1", "endif2", "selector", "casefold", "thenx", "contain", "result1",
                   "function_x", "doublet", "programmer", "moduleX", "blockx", "savex", "readx",
-                  "writeme", "openx", "closex", "returns", "cycler", "exiting", "allocat"]
+                  "writeme", "openx", "closex", "returns", "cycler", "exiting", "allocat",
+                  "omp_tid", "ompval", "omp", "acc_n"]
 
 
 def _mkname(r, taken, hostile_ok=True):
